@@ -49,6 +49,8 @@ def rule_integer(ctx):
         format_name = ch.choose("format", ["delimited", "fixed"])
         # with both a length and a rule every limit of the rule must fit the length
         limits_fit = ch.choose("rule limits fit the length", [True, False]) if (has_length and has_rule) else True
+        # an open length ("1...") gives a range without limits; it still is the range to use
+        length_is_open = ch.choose("length is open", [False, True]) if (has_length and not has_rule) else False
         made = {}
         fit_checks = []
 
@@ -70,7 +72,10 @@ def rule_integer(ctx):
 
         @stub
         def from_length(interp_, args, kwargs):
-            obj = Obj(model.cls("cutplace.ranges.Range"), {"_description": "from-length", "_from": args[0]}, label="from-length")
+            obj = Obj(model.cls("cutplace.ranges.Range"), {"_description": "from-length", "_from": args[0],
+                                                          "_items": None if length_is_open else [(1, 5)],
+                                                          "_lower_limit": None if length_is_open else 3,
+                                                          "_upper_limit": None if length_is_open else 3}, label="from-length")
             made["from_length"] = obj
             return obj
 
@@ -106,7 +111,7 @@ def rule_integer(ctx):
             if source_text != wanted:
                 actual = "from-length of %r" % (source_text,)
                 expected = "from-length of %r" % (wanted,)
-        return ("length=%s rule=%s %s" % (has_length, has_rule, format_name), actual, expected)
+        return ("length=%s%s rule=%s %s" % (has_length, " (open)" if length_is_open else "", has_rule, format_name), actual, expected)
 
     decide(ctx, "O2.1", "Integer range selection", FIELDS + "IntegerFieldFormat.__init__", init_cell, min_cells=10)
 
@@ -608,7 +613,7 @@ def rule_choice_constant_rules(ctx):
         for kind, text in produced[:-1]:
             if expect_value:
                 if kind in ("VALUE", "QUOTED"):
-                    expected_choices.append(text.strip('"'))
+                    expected_choices.append(text[1:-1] if kind == "QUOTED" else text)
                     expect_value = False
                 else:
                     well_formed = False
@@ -656,11 +661,26 @@ def rule_choice_constant_rules(ctx):
         elif not tokens:
             expected = ("constant", "") if (allowed_empty and length_verdict == "fits") else "raise InterfaceError"
         else:
-            text = tokens[0][1].strip('"')
+            text = tokens[0][1][1:-1] if tokens[0][0] == STRING else tokens[0][1]
             expected = ("constant", text) if (not allowed_empty and length_verdict == "fits") else "raise InterfaceError"
         return ("empty-allowed=%s tokens=%r length=%s" % (allowed_empty, [t[1] for t in tokens], length_verdict), outcome, expected)
 
     decide(ctx, "O2.9", "Constant rule", FIELDS + "ConstantFieldFormat.__init__", constant_cell, min_cells=16)
+
+    # the text a rule token stands for: a quoted token loses exactly its two enclosing quotes (a value may itself begin or
+    # end with the other kind of quote), any other token is taken as written
+    def token_text_cell(ch):
+        kind, text = ch.choose("token", [(STRING, '"abc"'), (STRING, "'abc'"), (STRING, '""'), (STRING, "''"), (STRING, '"\'yes\'"'),
+                                         (STRING, "'3\"'"), (STRING, '"\'x"'), (STRING, "'\"'"), (STRING, '" a "'), (STRING, '"a\\"b"'),
+                                         (NAME, "abc"), (NUMBER, "12"), (NUMBER, "1.50"), (OP, ","), (OP, "-"), (END, "")])
+        interp = Interp(model, ch)
+        try:
+            result = interp.call_function(model.func("cutplace._tools.token_text"), [(kind, text, (1, 0), (1, len(text)), text)], {}, None)
+        except AbsRaise as raised:
+            result = "raise " + exc_name(raised.value)
+        return ("%s %r" % ("quoted" if kind == STRING else "plain", text), result, text[1:-1] if kind == STRING else text)
+
+    decide(ctx, "O2.9", "text of a rule token", "cutplace._tools.token_text", token_text_cell, min_cells=16)
 
 
 def rule_range_membership(ctx):
